@@ -201,6 +201,19 @@ func c05Decoder(c *Ctx, p *Prog, dec *ssa.Function, r1, r2, r3 string) {
 					sameAsRead = true
 				}
 			}
+			// (c) frames.Next(n) with n the pending frame length and at least n bytes buffered
+			if nx, _ := callOf(unspill(oa[1])); nx != nil && p.CalleeID(nx.Common()) == "(*bytes.Buffer).Next" {
+				if _, isParam := unspill(nx.Common().Args[0]).(*ssa.Parameter); isParam {
+					bd := p.NewBounds()
+					okN, _ := bd.Prove(dec, open, func(s *scope, pr *proof) []Cons {
+						l, _ := s.lenLin(nx, pr)
+						return eq(l, s.lin(nx.Common().Args[1], pr))
+					})
+					if okN {
+						sameAsRead = true
+					}
+				}
+			}
 			if sameAsRead {
 				// holds
 			} else if !ok || bs.High == nil || bs.Low != nil {
